@@ -571,6 +571,10 @@ parse_args(int argc, char *argv[])
 				operation_mode = CHECK;
 				break;
 			case 'n':
+				if (atol(optarg) < 1) {
+					err("the number of events to look back must be positive: %s", optarg);
+					usage();
+				}
 				max_look_back = (size_t) atol(optarg);
 				break;
 			default: /* '?' */
